@@ -127,7 +127,13 @@ def run_case(spec, idx, ctx):
         # history: the dataset was preprocessed before with another descan fit, and Ptychography.preprocess is called twice
         build["dset_pre"] = [["constant"], ["plane"], ["constant", "no_shift"]][(idx // 5) % 3]
         build["pt_twice"] = bool((idx // 5) % 2)
-    if idx % 3 == 1 and kind != "ties":
+    if idx % 3 == 2:
+        build["probe_order"] = "permute"  # resolved once the number of modes is known
+    if idx % 8 == 3 and kind not in ("dataset_opt",):
+        build["dataset_file"] = "reload"
+    if idx % 3 == 1 and kind != "ties" and not build.get("dataset_file"):
+        # (not combined with the reload-from-file history: on the unchanged tree the automatic dataset reload does not pass the probe
+        # energy to preprocess(), so an mrad-calibrated file cannot be reloaded at all - loud, outside this property; DESIGN 8.3b)
         build["detector_units"] = "mrad"  # same calibration given as scattering angles (converted with the probe energy by the library)
     sc = scenes.make_scene(rng, **kw)
     if spec.get("_lib_shape"):
@@ -179,6 +185,14 @@ def run_case(spec, idx, ctx):
         mask = (rng.random(sc.roi) > 0.3).astype(np.float32)
     key = "dataset" if kind == "dataset_opt" else "object"
 
+    if build.get("probe_order") == "permute":
+        # install the incoherent modes in a random (generally non-descending) order; kept off where the orthogonalisation is switched off
+        build["probe_order"] = [int(i) for i in rng.permutation(sc.num_probes)] if sc.num_probes > 1 and kind != "nonorth" else None
+    if build.get("dataset_file") == "reload":
+        import os
+
+        build["dataset_file"] = os.path.join(ctx.tmp, "c02-raw-%d.zip" % idx)
+
     def build_lib(scene):
         return scenes.build_library(scene, I, detector_mask=mask, seed=int(rng.integers(1 << 30)), **build)
 
@@ -220,6 +234,7 @@ def run_case(spec, idx, ctx):
         bsizes += [1] if idx % 3 == 0 else [int(rng.integers(2, J + 1))]
     worst_ratio = 0.0
     minpert = np.inf
+    pert_by_loss = {}
     for li, lt in enumerate(LOSSES):
         bs = bsizes[(idx + li) % len(bsizes)]
         if kind == "dataset_opt":
@@ -233,6 +248,7 @@ def run_case(spec, idx, ctx):
             Lp = scenes.library_loss(pt_pp, lt, batch_size=bs, key=key)
             Lc, _pred = scenes.chain_loss(pt_po, lt)  # explicit chain vs public path, compared where the loss is well above rounding noise
         ref = min(Lo, Lp)
+        pert_by_loss[lt] = ref
         minpert = min(minpert, ref)
         r = RATIO[lt] * (100.0 if kind.startswith("constant") else 1.0)
         f = dict(common, loss=lt, batch="full" if bs == J else ("one" if bs == 1 else "partial"))
@@ -266,8 +282,42 @@ def run_case(spec, idx, ctx):
             rp = float(torch.linalg.vector_norm(gp) / torch.linalg.vector_norm(gp_pp).clamp_min(1e-300))
             gt = 3e-3 if not kind.startswith("constant") else 1e-2  # measured floors over 1600 scenes: 1.8e-4 (no_shift), 7.8e-4 (constant); mutants >= 5e-2
             ctx.close(max(ro, rp), gt, "truth_not_stationary", track="%s:%s" % (lt, ("constant" if kind.startswith("constant") else "no_shift") + (":clipped(known finding)" if clip == "on" else "")), detail=lambda: "%s |grad_obj(truth)|/|grad_obj(pert)|=%.2e |grad_probe(truth)|/|grad_probe(pert)|=%.2e scene=%s" % (lt, ro, rp, sc.describe()), **dict(common, loss=lt))
+    # ---- interactions with other public features that share state with the pipeline ----------------------------------------
+    rr = RATIO["l2_amplitude"] * (100.0 if kind.startswith("constant") else 1.0)
+    if build.get("dset_pre") and clip != "on":
+        # a clone that is re-preprocessed with another padding must not disturb the object it was cloned from
+        try:
+            cl = pt.clone()
+            other_pad = tuple(int(p) + 8 * int(rng.integers(1, 3)) for p in sc.pad_req)
+            import contextlib, io
+
+            with contextlib.redirect_stdout(io.StringIO()):
+                cl.preprocess(obj_padding_px=other_pad, com_fit_function=build["com_fit"], force_com_rotation=0, force_com_transpose=False, plot_rotation=False, plot_com=False)
+            del cl
+            ctx.count("clone_repreprocessed")
+        except Exception as e:  # noqa: BLE001  (a failing clone is C05's business; here only its effect on the original)
+            ctx.count("clone_or_repreprocess_raised:%s" % type(e).__name__)
+        L0c = scenes.library_loss(pt, "l2_amplitude", batch_size=J, key=key)
+        ctx.close(L0c / max(pert_by_loss["l2_amplitude"], 1e-300), rr, "loss_at_truth_nonzero", track="l2_amplitude:after_clone_was_repreprocessed", detail=lambda: "loss(truth) of the original after its clone was preprocessed with padding %r: %.3e" % (other_pad, L0c), **dict(common, loss="l2_amplitude", batch="full", history="clone_repreprocessed"))
+    if build.get("dataset_file") and clip != "on":
+        # saved without its raw data (the default) and reloaded: the library re-reads the data file and re-applies the stored preprocessing
+        import contextlib, io, os
+
+        from quantem.diffractive_imaging.ptychography import Ptychography
+
+        pz = os.path.join(ctx.tmp, "c02-recon-%d.zip" % idx)
+        with contextlib.redirect_stdout(io.StringIO()):
+            pt.save(pz, mode="o", verbose=0)
+            pt2 = Ptychography.from_file(pz, verbose=0)
+        ctx.check(getattr(pt2, "_dset", None) is not None, "light_save_reload_has_no_dataset", "from_file() of a raw-data-free save did not re-attach the dataset from its file", **common)
+        if getattr(pt2, "_dset", None) is not None:
+            L0r = scenes.library_loss(pt2, "l2_amplitude", batch_size=J, key=key)
+            ctx.close(L0r / max(pert_by_loss["l2_amplitude"], 1e-300), rr, "loss_at_truth_nonzero", track="l2_amplitude:after_light_save_reload", detail=lambda: "loss(truth) after save() without raw data + from_file() (dataset re-read from its file, pad_req %r -> pad_eff %r): %.3e" % (sc.pad_req, sc.pad_eff, L0r), **dict(common, loss="l2_amplitude", batch="full", history="light_save_reload"))
+        for f in (pz, build["dataset_file"]):
+            with contextlib.suppress(OSError):
+                os.remove(f)
     frac = np.abs(sc.positions_px - np.rint(sc.positions_px))
     nfrac = int((frac.max(axis=1) > 1e-3).sum())
     par = "".join("o" if n % 2 else "e" for n in sc.roi) + ("sq" if sc.roi[0] == sc.roi[1] else "ns")
     ctx.nontrivial((kind, sc.obj_type, sc.num_slices, sc.num_probes, par, "b1" if 1 in bsizes else "bp", clip), sc.meta["phase_std"] >= 0.1 and (nfrac >= 2 or kind.startswith("constant")) and minpert >= 1e-4)
-    ctx.observe(scene=sc.describe(), roll=list(roll), clip=clip, detector_units=build.get("detector_units", "A^-1"), dset_pre=list(build.get("dset_pre", ())), pt_twice=bool(build.get("pt_twice")), worst_truth_over_perturbed=worst_ratio, min_perturbed_loss=float(minpert), fractional_positions=nfrac)
+    ctx.observe(scene=sc.describe(), roll=list(roll), clip=clip, detector_units=build.get("detector_units", "A^-1"), dset_pre=list(build.get("dset_pre", ())), pt_twice=bool(build.get("pt_twice")), probe_order=build.get("probe_order"), raw_data_file=bool(build.get("dataset_file")), worst_truth_over_perturbed=worst_ratio, min_perturbed_loss=float(minpert), fractional_positions=nfrac)
